@@ -39,6 +39,7 @@ type lifePlan struct {
 	Concurrency     int        `json:"concurrency"`
 	MaxPerIP        int        `json:"max_conns_per_ip"`
 	ReduceMem       bool       `json:"reduce_memory_usage"`
+	StreamReq       bool       `json:"stream_request_body,omitempty"`
 	IdleTimeoutMs   int        `json:"idle_timeout_ms"`
 	ReadTimeoutMs   int        `json:"read_timeout_ms"`
 	MaxIdleWorkerMs int        `json:"max_idle_worker_ms"`
@@ -110,6 +111,7 @@ func genLifePlan(e *Env) *lifePlan {
 		Concurrency:     Pick(e, 0, 1, 2, 3, 2),
 		MaxPerIP:        Pick(e, 0, 1, 2, 0),
 		ReduceMem:       e.Chance(35),
+		StreamReq:       e.Chance(25),
 		IdleTimeoutMs:   Pick(e, 0, 1500, 600000),
 		ReadTimeoutMs:   Pick(e, 0, 0, 4000),
 		MaxIdleWorkerMs: Pick(e, 0, 200, 1000),
@@ -456,6 +458,7 @@ func (r *lifeRun) run() {
 		Concurrency:           p.Concurrency,
 		MaxConnsPerIP:         p.MaxPerIP,
 		ReduceMemoryUsage:     p.ReduceMem,
+		StreamRequestBody:     p.StreamReq,
 		IdleTimeout:           ms(p.IdleTimeoutMs),
 		ReadTimeout:           ms(p.ReadTimeoutMs),
 		MaxIdleWorkerDuration: ms(p.MaxIdleWorkerMs),
